@@ -773,7 +773,7 @@ func main() {
 	hxlib.Main(hxlib.Spec{
 		ID: "C04",
 		Rule: "operation sequences on newVoteSet(n), n in 1..10 (0..4 for the out-of-range stream): add(index, vote) with votes drawn from a palette of 2-4 of 10 decisions (nil vote, blocks A/B/C, and decisions differing from A only in part-set hash / part count / block id / app data / NTS votes), timestamps 99..102, rounds 0..1, occasionally other height/type, interleaved with cache-filling queries with probability 0/0.15/0.4/0.8; streams: uniformly random, majority-then-revote, exact threshold boundary floor(2n/3)+1 followed by a conflicting re-vote of every validator, counter churn (n distinct decisions then re-votes so counters are swap-removed from the middle), duplicates / timestamp-only / round-only / type-only differences, indices outside the validator set; thorough tier adds every add-sequence of length <= 6 over n <= 3 and 3 decisions as prefix-sharing trees. Observed after EVERY operation: add's return, count, hasOverTwoThirds, reported decision, nil-ness of the part-set id, round, counters. non-trivial = the sequence contains a replacement of an occupied slot, a refusal because the old vote backs a +2/3 decision, or a step at which a decision is reported; distinct = distinct Coq case term",
-		Shard: 100,
+		Shard: 150,
 		Gen:   gen, Replay: replay,
 	})
 }
